@@ -65,11 +65,24 @@ CONFIG = {
         "out-of-range offsets: only the IndexError documented for TreeList.get/read is asserted (Tree.get's docstring "
         "is contradictory there)",
         "NeXML documents come from DendroPy's own writer (document source only); labels there are alphanumeric with "
-        "blanks, '.', '_' and '-'",
+        "blanks, '.', '_' and '-'; matrices are written with markup_as_sequences=True",
+        "options that turn tree labels into additional taxa (suppress_internal_node_taxa=False; case-sensitive reading "
+        "of re-cased labels) are not combined with documents that hold CHARACTERS/DATA blocks (only the routes parsing "
+        "the matrix can notice that NTAX no longer fits); re-cased labels are not written into documents with matrices",
+        "when DataSet.get refuses a NEXUS document with a parse error that DataSet.get(exclude_chars=True) does not "
+        "raise, the refusal concerns the character block (C20/C09 territory): the tree clauses use exclude_chars=True "
+        "and the matrix clause is skipped (class dataset_route_refuses_character_block)",
+        "while the library under test still tokenizes \"[c]'a b'\" as the unquoted token \"'a\" (C20's finding, probed "
+        "once per process), documents with a comment directly in front of a quoted token are skipped (class "
+        "skipped:comment_glued_to_quoted_token(C20)); with C20's repair merged nothing is skipped",
+        "matrix rows are compared by taxon label (iteration order follows the namespace, which the data set route may "
+        "have filled from an earlier TREES block)",
+        "a document + options combination that TreeList.get(data=) refuses is outside the domain; DataSet.get and the "
+        "iterator must then refuse it as well",
     ],
 }
 
-TOTALS = {"quick": {"docs": 700, "rich": 700, "nexml": 240}, "thorough": {"docs": 30000, "rich": 30000, "nexml": 8000}}
+TOTALS = {"quick": {"docs": 1000, "rich": 1000, "nexml": 320}, "thorough": {"docs": 30000, "rich": 30000, "nexml": 8000}}
 
 KINDS = ("data", "strio", "file", "path")
 MATRIX_CLASS = {"dna": "DnaCharacterMatrix", "rna": "RnaCharacterMatrix", "protein": "ProteinCharacterMatrix",
@@ -483,6 +496,10 @@ def check_content(run, base):
         return
     labels = content["taxon_labels"]
     index = dict((l, i) for i, l in enumerate(labels))
+    # weights are only predictable when every weight token of the text is one written in front of a tree by
+    # lib/c13_docs.py: a "[&W 1/2]" that lib/docs.py attaches to the first node of a statement is read as the
+    # tree's weight too (the tokenizer captures comments around the first token of the statement)
+    weights_known = run.text.upper().count("[&W ") == sum(1 for t in want if t.get("weight") is not None)
     for k, (tree, exp) in enumerate(zip(base.objs, want)):
         rt, problems = snapshot(tree)
         try:
@@ -501,7 +518,7 @@ def check_content(run, base):
         if exp["name"] is not None and tree.label != exp["name"]:
             ctx.fail("document_content", "C13.content:name", "tree %d is named %r, the document says %r; %s" % (k, tree.label, exp["name"], run.where()))
             return
-        if "weight" in exp:
+        if "weight" in exp and weights_known:
             ew = (exp["weight"] if exp["weight"] is not None else 1.0) if opts.get("store_tree_weights") else None
             if tree.weight != ew:
                 ctx.fail("document_content", "C13.content:weight", "tree %d has weight %r, the document (store_tree_weights=%r) says %r; %s" % (
